@@ -5,6 +5,8 @@
        growth sequences of one scalable family, k = 1..kmax; G = atoms + lists of the Debug-shaped value.
        Verdict, per stage: s(16) <= 6 * s(8) and s(12) <= 6 * s(6)   [VIOL class=exponential-growth:<stage>]
                            s(16) - s(8) <= 6 * (s(8) - s(4))          [VIOL class=superquadratic-growth:<stage>]
+       A stage whose output exceeds 100 x the source text is reported by the harness as (OVER k stage 100)
+       instead of the rows                                             [VIOL class=exponential-growth:<stage>]
        (a polynomial of degree d doubles its argument into a factor 2^d: quadratic 4, cubic 8).
        Tags: <stage>:deg<d> with d = floor(10 * log2(s(16)/s(8))) (the fitted exponent, in tenths) and
              <stage>:ddeg<d> the same for the differences (insensitive to the constant part: declarations).
@@ -95,7 +97,13 @@ Definition atom_is (h : string) (x : sexp) : bool :=
   match x with A s => String.eqb s h | _ => false end.
 
 Definition family_case (fam : string) (srcs out : sexp) : verdict :=
-  if head_is "ERR" out then VBad ("family " ++ fam ++ " rejected by the real pipeline: " ++ trunc 200 (show out))
+  if head_is "OVER" out then
+    match out with
+    | L [_; A k; A stage; A f] =>
+        VViol ("class=exponential-growth:" ++ stage ++ " family=" ++ fam ++ " sizes=over-" ++ f ++ "-times-the-source-at-k=" ++ k)
+    | _ => VBad "over"
+    end
+  else if head_is "ERR" out then VBad ("family " ++ fam ++ " rejected by the real pipeline: " ++ trunc 200 (show out))
   else
   match getL g_row srcs, getL g_row out with
   | Some srows, Some orows =>
